@@ -282,7 +282,7 @@ func lastPos(b *ssa.BasicBlock) token.Pos {
 // OrdTextIVM implements ORD-TEXTIVM: the text reader recognises the version
 // marker $ion_1_0 and resets the symbol table context when it sees one.
 func OrdTextIVM(p *load.Program) *report.RuleResult {
-	r := newResult("ORD-TEXTIVM", "the text reader compares an unquoted top-level symbol with the version marker text \"$ion_1_0\"; on the edge where it matches, the current symbol table is reset to the system table and the marker is not surfaced as a value (done == false)", 2)
+	r := newResult("ORD-TEXTIVM", "the text reader compares an unquoted top-level symbol with the version marker text \"$ion_1_0\"; on the edge where it matches, and only after the reader has found that no '::' follows the symbol, the current symbol table is reset to the system table and the marker is not surfaced as a value (done == false)", 3)
 	found := 0
 	for _, fn := range sortedFuncs(p) {
 		if p.InTest(fn) || recvTypeName(fn) != "textReader" {
@@ -351,6 +351,34 @@ func OrdTextIVM(p *load.Program) *report.RuleResult {
 				if strings.Contains(ssau.Path(st.Val), "V1SystemSymbolTable") && isMarker(ff.At(st)) {
 					reset = true
 					r.OK(name, instrPos(p, st), "version marker resets the symbol table", "lst = V1SystemSymbolTable on the edge where the symbol text is $ion_1_0")
+					// ... and only for a symbol that turned out not to be an annotation ($ion_1_0::x is an annotated value)
+					what := "version marker recognised only when no '::' follows"
+					var dc []ssa.Value
+					for _, b2 := range fn.Blocks {
+						for _, in2 := range b2.Instrs {
+							if c2, ok := in2.(*ssa.Call); ok && calleeIs(c2, "tokenizer", "SkipDoubleColon") && c2.Referrers() != nil {
+								for _, u := range *c2.Referrers() {
+									if ex, ok := u.(*ssa.Extract); ok && ex.Index == 0 {
+										dc = append(dc, ex)
+									}
+								}
+							}
+						}
+					}
+					switch {
+					case len(dc) == 0:
+						r.Unknown(name, instrPos(p, st), what, "this function does not look for '::' itself: the rule cannot tell whether the symbol was already found not to be an annotation")
+					default:
+						okDC := false
+						for _, v := range dc {
+							okDC = okDC || ff.At(st).Has("false", ssau.Path(v), "")
+						}
+						if okDC {
+							r.OK(name, instrPos(p, st), what, "SkipDoubleColon returned false on every path to the reset")
+						} else {
+							r.Bad(name, instrPos(p, st), what, "the table is reset before the reader has looked for '::': the annotated value $ion_1_0::x resets the symbol table and then fails on the '::'")
+						}
+					}
 				}
 			}
 		}
